@@ -150,6 +150,8 @@ def as_v(val):
             t = L.dict_set(t, as_v(k), as_v(v))
         return t
     if isinstance(val, GlobalRef):
+        if val.path in GLOBAL_ATOMS:
+            return GLOBAL_ATOMS[val.path]
         return L.atom("global", val.path)
     if isinstance(val, ExcVal):
         return L.atom("exc", val.cls)
@@ -188,6 +190,7 @@ def declare_always_truthy(*tags):
 
 
 TAG_ALIAS = {}
+GLOBAL_ATOMS = {}   # dotted path of a builtin / library object -> the theory term that denotes it
 
 
 def base_tag(tag):
